@@ -84,16 +84,27 @@ def removerange(self: "obj:nbdime.diff_format.SequenceDiffBuilder", key: "int", 
 
 # ------------------------------------------------------------------ patching
 
-@assumed("nbdime.patching.patch", properties=["C02", "C01"])
+@contract("nbdime.patching.patch", properties=["C02", "C01"])
 def patch_(obj: "V", diff: "Seq[E]") -> "V":
-    # element-level patch: by definition of the spec vocabulary apply_v IS the documented meaning of
-    # patching a value; the dispatcher itself is covered by the bounded stand-in (C02).
+    # the type dispatcher: for a diff that is well formed for the typed value all the way down (wf_v), the result is the
+    # documented application apply_v (which on lists / dicts IS apply_seq / apply_map, see the prelude)
+    requires(wf_v(obj, diff))
+    ensures(result == apply_v(obj, diff))
+
+
+@assumed("nbdime.patching.patch_string", properties=["C02", "C01"])
+def patch_string(obj: "V", diff: "Seq[E]") -> "V":
+    # ASSUMED (Kit S, the flattening of a line-based diff to characters, is not built): patching a string with a diff that is
+    # well formed for it yields the documented result.  Exercised at run time by the bounded stand-ins.
+    requires(is_str(obj))
     ensures(result == apply_v(obj, diff))
 
 
 @contract("nbdime.patching.patch_list", properties=["C02", "C01"])
 def patch_list(obj: "Seq[V]", diff: "Seq[E]") -> "Seq[V]":
     requires(wf_seq(diff, len(obj)))
+    # nested diffs are well formed for the items they patch
+    requires(all(implies(diff[q].op == "patch", wf_v(obj[diff[q].key], diff[q].diff)) for q in range(len(diff))))
     ensures(result == apply_seq(obj, diff))
     local(newobj="Seq[V]")
     with loop(1, index="k"):
